@@ -2,6 +2,11 @@
 From Coq Require Import ZArith List String.
 Import ListNotations.
 Local Open Scope string_scope.
+Definition gen_numeric_globals : list (string * string) := [("app/ante/commission.go", "MinCommission");
+  ("app/ante/commission.go", "maxVotingPower");
+  ("x/ethbridge/types/test_common.go", "testCethAmount");
+  ("x/ethbridge/types/test_common.go", "TestCoinsAmount");
+  ("x/ethbridge/types/test_common.go", "AltTestCoinsAmountSDKInt")].
 Definition gen_clock_sites : list (string * string * string * string) := [("x/clp/abci.go", "EndBlocker", "time.Now", "defer telemetry.ModuleMeasureSince");
   ("x/clp/abci.go", "BeginBlocker", "time.Now", "defer telemetry.ModuleMeasureSince");
   ("x/clp/abci.go", "MeasureBlockTime", "time.Now", "statement");
